@@ -16,6 +16,14 @@ from .tla import run_tlc, unquote_tla_string  # noqa: E402
 _G = {}
 
 
+def dev_of(key):
+    return int(key[0][1:])
+
+
+def calls_of(key):
+    return tuple(key[1:])
+
+
 def explore(cfg, workdir, depth=None, workers=16, simulate=None, invariants=None, timeout=3600):
     """Run TLC on the configuration; returns (TLCResult, expect) where expect maps a history
     (tuple of call indices) to (outs, rets, raw-json-of-state, viol-list)."""
@@ -27,7 +35,7 @@ def explore(cfg, workdir, depth=None, workers=16, simulate=None, invariants=None
         body = unquote_tla_string(line)[3:]
         rec = json.loads(body)
         h = rec["h"]
-        key = tuple(e[0] for e in h)
+        key = (f"d{rec['s']['dev']}",) + tuple(e[0] for e in h)
         expect[key] = (tuple(e[1] for e in h), tuple(e[2] for e in h), rec["s"], rec["v"])
 
     inv = invariants or ("Emit", "TilingInv", "TypeOK")
@@ -56,7 +64,7 @@ def _replay_chunk(keys):
     nsteps = 0
     for key in keys:
         outs, rets, st, _ = expect[key]
-        dev_index = st["dev"]
+        dev_index = dev_of(key)
         run = Runner(cfg, dev_index)
         ctx = _ctx(cfg, dev_index)
         bad = False
@@ -68,10 +76,10 @@ def _replay_chunk(keys):
                 break
         if bad:
             continue
-        for n, k in enumerate(key):
+        for n, k in enumerate(key[1:]):
             out, ret = run.call(cfg.calls[k - 1])
             nsteps += 1
-            pre = key[:n + 1]
+            pre = key[:n + 2]
             if pre in verified:
                 continue
             e = expect.get(pre)
@@ -98,7 +106,7 @@ def replay_all(cfg, expect, procs=16):
     keys = sorted(expect)
     keyset = set(keys)
     # leaves: histories that are not a proper prefix of another emitted history
-    has_child = set(k[:-1] for k in keys if k)
+    has_child = set(k[:-1] for k in keys if len(k) > 1)
     leaves = [k for k in keys if k not in has_child]
     _G["cfg"], _G["expect"] = cfg, expect
     if not leaves:
@@ -131,7 +139,7 @@ def record_trace(cfg, dev_index, key):
         run.call(cfg.calls[k - 1])
     init = P.project(run.seq, ctx)
     steps = []
-    for k in key:
+    for k in calls_of(key) if key and isinstance(key[0], str) else key:
         out, ret = run.call(cfg.calls[k - 1])
         steps.append({"k": k, "out": out, "ret": ret, "post": P.project(run.seq, ctx)})
     return {"init": init, "steps": steps}
